@@ -333,3 +333,268 @@ Proof.
     rewrite roundtrip_null; [reflexivity|left; reflexivity|exact Hk].
   - cbn [expected]. rewrite roundtrip_null; [reflexivity|right; reflexivity|exact Hk].
 Qed.
+
+(** * refutation: one witness per mechanism *)
+Definition L_mem : layout := {| via_wal := false; in_seg := None |}.
+Definition L_wal : layout := {| via_wal := true; in_seg := None |}.
+Definition L_seg : layout := {| via_wal := false; in_seg := Some 0%nat |}.
+Definition L_cmp : layout := {| via_wal := false; in_seg := Some 1%nat |}.
+
+Definition fails (k : known_class) (t : ftype) (l : layout) (cp : bool) (v : stored) : Prop :=
+  definable t = true /\ conforming t v = true /\ col_consistent cp v = true /\
+  in_class k t l cp v = true /\ json_eqb (returned t l cp v) (expected v) = false.
+
+(** "[1]" ; "123" ; null ; 9007199254740993 ; 446.19296929045356 *)
+Theorem roundtrip_refuted :
+  fails Utf8ReparsedOnRender TStr L_mem true (Some (JStr [91; 49; 93]%N)) /\
+  fails StringRetyped TStr L_seg true (Some (JStr [49; 50; 51]%N)) /\
+  fails NullStringBecomesEmpty (TOpt TStr) L_seg true (Some JNull) /\
+  fails IntegerInFloatFieldRounded TF64 L_seg true (Some (JU64 9007199254740993)) /\
+  fails FloatWalReparsedInexact TF64 L_wal true (Some (JF64 4646557125919078934)).
+Proof. repeat split; vm_compute; reflexivity. Qed.
+
+(** further witnesses of the re-typing class: " 7 ", "true", "1e3", NBSP "7", "null", and an enum
+    variant "12"; the optional string whose key is absent; the compacted tier *)
+Example retyped_witnesses :
+  returned TStr L_seg true (Some (JStr [32; 55; 32]%N)) = JU64 7 /\
+  returned TStr L_seg true (Some (JStr [116; 114; 117; 101]%N)) = JBool true /\
+  returned TStr L_seg true (Some (JStr [49; 101; 51]%N)) = JF64 4652007308841189376 /\
+  returned TStr L_cmp true (Some (JStr [194; 160; 55]%N)) = JU64 7 /\
+  returned (TOpt TStr) L_seg true (Some (JStr [110; 117; 108; 108]%N)) = JNull /\
+  returned (TEnum [[49; 50]%N]) L_seg true (Some (JStr [49; 50]%N)) = JU64 12 /\
+  returned (TOpt TStr) L_cmp true None = JStr [] /\
+  returned TStr L_mem true (Some (JStr [49; 50; 51]%N)) = JStr [49; 50; 51]%N /\
+  returned TStr L_mem true (Some (JStr (dec_of_Z 9999999999999999999))) = JU64 9999999999999999999.
+Proof. repeat split; vm_compute; reflexivity. Qed.
+
+(** * tightness: every conforming input of a known class really comes back changed *)
+Lemma json_eqb_str_inv : forall a s, json_eqb a (JStr s) = true -> a = JStr s.
+Proof. intros a s H. destruct a; cbn [json_eqb] in H; try discriminate. f_equal. apply bytes_eqb_eq, H. Qed.
+
+Lemma json_of_utf8_str_inv : forall t s, json_of_utf8 t = JStr s -> t = s.
+Proof.
+  intros t s H. unfold json_of_utf8 in H.
+  destruct (parse_json t) as [[| | n | | | | |]|]; try (inversion H; reflexivity); try discriminate.
+  destruct (value_tojson_u64_threshold <? n); [discriminate|inversion H; reflexivity].
+Qed.
+
+Lemma json_of_scalar_str_inv : forall x s, json_of_scalar x = JStr s -> x = SUtf8 s.
+Proof.
+  intros x s H. destruct x; cbn [json_of_scalar] in H; try discriminate.
+  - destruct (z <? 0); discriminate.
+  - destruct (f64_is_finite bits); discriminate.
+  - f_equal. eapply json_of_utf8_str_inv, H.
+Qed.
+
+Lemma scalar_eqb_refl : forall a, scalar_eqb a a = true.
+Proof.
+  intros [| b | z | z | s]; cbn [scalar_eqb].
+  - reflexivity.
+  - destruct b; reflexivity.
+  - lia.
+  - lia.
+  - apply bytes_eqb_refl.
+Qed.
+
+Lemma compat_inv_var : forall p s, compat p (JStr s) = true -> p = PVar.
+Proof. intros [] s H; cbn in H; try discriminate; reflexivity. Qed.
+Lemma compat_inv_f64 : forall p b, compat p (JF64 b) = true -> p = PF64.
+Proof. intros [] b H; cbn in H; try discriminate; reflexivity. Qed.
+
+Lemma wal_float_shape : forall b, (exists r, wal_float b = SFloat r) \/ wal_float b = SNull.
+Proof.
+  intros b. unfold wal_float. destruct (negb (f64_is_finite b)); [right; reflexivity|].
+  destruct (f64_mag b =? 0); [left; eexists; reflexivity|].
+  destruct (ryu_parts (f64_mag b)) as [sg e]. destruct (f64_from_parts (f64_neg b) sg e); [left; eexists; reflexivity|right; reflexivity].
+Qed.
+
+Lemma json_f64_cell_neq : forall r b, r <> b ->
+  json_eqb (json_of_scalar (f64_cell_scalar r)) (JF64 b) = false.
+Proof.
+  intros r b Hn. unfold f64_cell_scalar. destruct (f64_is_finite r) eqn:E; cbn [json_of_scalar]; [rewrite E|]; cbn [json_eqb]; [lia|reflexivity].
+Qed.
+
+Theorem known_classes_fail : forall k t l cp v,
+  definable t = true -> conforming t v = true -> col_consistent cp v = true ->
+  in_class k t l cp v = true ->
+  (k = Utf8ReparsedOnRender -> in_memory l = true) ->
+  json_eqb (returned t l cp v) (expected v) = false.
+Proof.
+  intros k t [w seg] cp v Hd Hc Hcp Hk Hmem. destruct k; cbn [in_class] in Hk.
+  - (* to_json re-parses, in memory *)
+    specialize (Hmem eq_refl). cbn [in_memory in_seg] in Hmem. destruct seg; [discriminate|].
+    destruct v as [[| | | | | s | |]|]; try discriminate.
+    unfold returned, tier_scalar. cbn [via_wal in_seg mem_scalar scalar_of_json expected].
+    replace (if w then wal_scalar (SUtf8 s) else SUtf8 s) with (SUtf8 s) by (destruct w; reflexivity).
+    cbn [json_of_scalar]. unfold utf8_reparsed in Hk. unfold json_of_utf8.
+    destruct (parse_json s) as [[| | n | | | | |]|]; try discriminate; try reflexivity.
+    rewrite Hk. reflexivity.
+  - (* re-typed var-bytes cell *)
+    destruct seg as [n|]; [|discriminate]. cbn [in_memory in_seg negb andb] in Hk.
+    destruct cp; [|discriminate]. cbn [andb] in Hk.
+    destruct (phys_of t) eqn:Hp; try discriminate.
+    destruct v as [[| | | | | s | |]|]; try discriminate.
+    unfold returned. rewrite tier_scalar_seg, Hp. cbn [mem_scalar scalar_of_json expected].
+    replace (if w then wal_scalar (SUtf8 s) else SUtf8 s) with (SUtf8 s) by (destruct w; reflexivity).
+    rewrite rt_var_utf8. unfold string_retyped in Hk. apply negb_true_iff in Hk.
+    destruct (json_eqb (json_of_scalar (add_payload_field s)) (JStr s)) eqn:E; [|reflexivity].
+    apply json_eqb_str_inv, json_of_scalar_str_inv in E. rewrite E, scalar_eqb_refl in Hk. discriminate.
+  - (* null in a var-bytes column *)
+    destruct seg as [n|]; [|discriminate]. cbn [in_memory in_seg negb andb] in Hk.
+    destruct cp; [|discriminate]. cbn [andb] in Hk.
+    destruct (phys_of t) eqn:Hp; try discriminate.
+    assert (Hv : mem_scalar v = SNull /\ expected v = JNull).
+    { destruct v as [[| | | | | | |]|]; try discriminate; split; reflexivity. }
+    destruct Hv as [Em Ee]. unfold returned. rewrite tier_scalar_seg, Hp, Em, Ee.
+    replace (if w then wal_scalar SNull else SNull) with SNull by (destruct w; reflexivity).
+    rewrite rt_var_null. vm_compute. reflexivity.
+  - (* integer in a float column *)
+    destruct seg as [n|]; [|discriminate]. cbn [in_memory in_seg negb andb] in Hk.
+    destruct cp; [|discriminate]. cbn [andb] in Hk.
+    destruct (phys_of t) eqn:Hp; try discriminate.
+    destruct v as [[| | u | z | | | |]|]; try discriminate; cbn [conforming] in Hc;
+      apply andb_true_iff in Hc; destruct Hc as [_ Hwf]; cbn [wf_json] in Hwf;
+      unfold returned; rewrite tier_scalar_seg, Hp; cbn [mem_scalar expected].
+    + assert (Ew : (if w then wal_scalar (scalar_of_json (JU64 u)) else scalar_of_json (JU64 u)) = scalar_of_json (JU64 u)).
+      { destruct w; [|reflexivity]. cbn [scalar_of_json]. destruct (u <=? i64_max); reflexivity. }
+      rewrite Ew.
+      assert (Er : rt PF64 (scalar_of_json (JU64 u)) = f64_cell_scalar (f64_of_int u)).
+      { cbn [scalar_of_json]. destruct (Z.leb_spec u i64_max); [apply rt_f64_int|apply rt_f64_big];
+          unfold i64_max, u64_max in *; lia. }
+      rewrite Er. unfold int_inexact_as_f64 in Hk. apply negb_true_iff in Hk.
+      unfold f64_cell_scalar. destruct (f64_is_finite (f64_of_int u)) eqn:E; cbn [json_of_scalar]; [rewrite E|]; cbn [json_eqb]; [exact Hk|reflexivity].
+    + cbn [scalar_of_json].
+      replace (if w then wal_scalar (SInt z) else SInt z) with (SInt z) by (destruct w; reflexivity).
+      rewrite rt_f64_int by (unfold i64_min in *; lia).
+      unfold int_inexact_as_f64 in Hk. apply negb_true_iff in Hk.
+      unfold f64_cell_scalar. destruct (f64_is_finite (f64_of_int z)) eqn:E; cbn [json_of_scalar]; [rewrite E|]; cbn [json_eqb]; [exact Hk|reflexivity].
+  - (* float re-read from the WAL *)
+    cbn [via_wal] in Hk. destruct w; [|discriminate]. cbn [andb] in Hk.
+    destruct v as [[| | | | b | | |]|]; try discriminate.
+    cbn [conforming] in Hc. apply andb_true_iff in Hc. destruct Hc as [Ha Hwf].
+    pose proof (conforming_compat t (JF64 b) Hd Ha ltac:(discriminate)) as Hcm. apply compat_inv_f64 in Hcm.
+    cbn [col_consistent] in Hcp. subst cp. cbn [expected].
+    unfold float_wal_inexact in Hk. apply negb_true_iff in Hk.
+    assert (Hne : forall r, wal_float b = SFloat r -> r <> b).
+    { intros r E Er. subst r. rewrite E in Hk. cbn [scalar_eqb] in Hk. lia. }
+    unfold returned. destruct seg as [n|].
+    + rewrite tier_scalar_seg, Hcm. cbn [mem_scalar scalar_of_json wal_scalar].
+      destruct (wal_float_shape b) as [[r E]|E]; rewrite E.
+      * rewrite rt_f64_float. apply json_f64_cell_neq, Hne, E.
+      * rewrite rt_null by discriminate. reflexivity.
+    + unfold tier_scalar. cbn [via_wal in_seg mem_scalar scalar_of_json wal_scalar].
+      destruct (wal_float_shape b) as [[r E]|E]; rewrite E.
+      * fold (f64_cell_scalar r). cbn [json_of_scalar]. fold (f64_cell_scalar r).
+        change (if f64_is_finite r then JF64 r else JNull) with (json_of_scalar (SFloat r)).
+        specialize (Hne r E). cbn [json_of_scalar]. destruct (f64_is_finite r); cbn [json_eqb]; [lia|reflexivity].
+      * reflexivity.
+Qed.
+
+(** * a zone column is read back cell by cell *)
+Lemma nat_iter_map : forall (A : Type) (f : A -> A) n (l : list A),
+  Nat.iter n (map f) l = map (Nat.iter n f) l.
+Proof.
+  intros A f n. induction n as [|n IH]; intros l.
+  - cbn [Nat.iter nat_rect]. rewrite map_id. reflexivity.
+  - change (Nat.iter (S n) (map f) l) with (map f (Nat.iter n (map f) l)).
+    rewrite IH, map_map. apply map_ext. intros a. reflexivity.
+Qed.
+
+Lemma nat_iter_S : forall (A : Type) (f : A -> A) n x, Nat.iter (S n) f x = f (Nat.iter n f x).
+Proof. reflexivity. Qed.
+Lemma nat_iter_shift : forall (A : Type) (f : A -> A) n x, Nat.iter n f (f x) = f (Nat.iter n f x).
+Proof.
+  intros A f n x. induction n as [|n IH]; [reflexivity|].
+  rewrite !nat_iter_S, IH. reflexivity.
+Qed.
+
+Lemma iter_compact_nat_iter : forall n p c, iter_compact n p c = Nat.iter n (compact_cell p) c.
+Proof.
+  induction n as [|n IH]; intros p c; [reflexivity|].
+  cbn [iter_compact]. rewrite IH, nat_iter_S, nat_iter_shift. reflexivity.
+Qed.
+
+Theorem zone_pointwise : forall t l vs,
+  returned_zone t l vs = map (returned t l (zone_col_present vs)) vs.
+Proof.
+  intros t [w seg] vs. unfold returned_zone, returned, tier_scalar. cbn [via_wal in_seg].
+  destruct seg as [n|].
+  - destruct (zone_col_present vs).
+    + unfold read_zone, compact_zone, write_zone. rewrite nat_iter_map, !map_map.
+      apply map_ext. intros v. rewrite iter_compact_nat_iter. reflexivity.
+    + apply map_ext. reflexivity.
+  - rewrite map_map. reflexivity.
+Qed.
+
+Lemma zone_col_consistent : forall vs v, In v vs -> col_consistent (zone_col_present vs) v = true.
+Proof.
+  intros vs v Hin. destruct v as [j|]; [|reflexivity]. cbn [col_consistent]. unfold zone_col_present.
+  apply existsb_exists. exists (Some j). split; [exact Hin|reflexivity].
+Qed.
+
+(** every cell of a zone outside the known classes comes back as stored *)
+Corollary zone_roundtrip : forall t l vs,
+  definable t = true ->
+  Forall (fun v => conforming t v = true /\ known t l (zone_col_present vs) v = false) vs ->
+  Forall2 (fun r v => json_eqb r (expected v) = true) (returned_zone t l vs) vs.
+Proof.
+  intros t l vs Hd Hall. rewrite zone_pointwise.
+  assert (G : forall ws, (forall v, In v ws -> In v vs) ->
+              Forall2 (fun r v => json_eqb r (expected v) = true) (map (returned t l (zone_col_present vs)) ws) ws).
+  { induction ws as [|v ws IH]; intros Hsub; cbn [map]; constructor.
+    - rewrite Forall_forall in Hall. destruct (Hall v (Hsub v (or_introl eq_refl))) as [Hc Hk].
+      apply roundtrip_outside_known; try assumption. apply zone_col_consistent, Hsub. left. reflexivity.
+    - apply IH. intros x Hx. apply Hsub. right. exact Hx. }
+  apply G. auto.
+Qed.
+
+(** * which var-bytes cells EventBuilder re-types *)
+Lemma parse_u64_minus : forall r, parse_u64 (45%N :: r) = None.
+Proof. reflexivity. Qed.
+
+Lemma ints_branch : forall t,
+  match t with
+  | 45%N :: _ => match parse_i64 t with Some i => Some (SInt i) | None => None end
+  | _ => match parse_u64 t with
+         | Some u => Some (u64_scalar u)
+         | None => match parse_i64 t with Some i => Some (SInt i) | None => None end
+         end
+  end =
+  match parse_u64 t with
+  | Some u => Some (u64_scalar u)
+  | None => match parse_i64 t with Some i => Some (SInt i) | None => None end
+  end.
+Proof.
+  intros [|c r]; [reflexivity|].
+  destruct (N.eq_dec c 45) as [->|Hc]; [rewrite parse_u64_minus; reflexivity|].
+  destruct c as [|p]; [reflexivity|].
+  repeat (destruct p as [p|p|]; try reflexivity); try contradiction.
+Qed.
+
+Theorem string_retyped_characterised : forall s,
+  (retype_candidate s = false -> add_payload_field s = SUtf8 s) /\
+  (retype_candidate s = true ->
+     add_payload_field s <> SUtf8 s \/
+     exists u, parse_u64 (utrim s) = Some u /\ i64_max < u /\ s = dec_of_Z u).
+Proof.
+  intros s. unfold retype_candidate, add_payload_field. cbv zeta. rewrite ints_branch.
+  destruct (bytes_eqb (utrim s) kw_true); [split; [discriminate|left; discriminate]|].
+  destruct (bytes_eqb (utrim s) kw_false); [split; [discriminate|left; discriminate]|].
+  destruct (bytes_eqb (utrim s) kw_null); [split; [discriminate|left; discriminate]|].
+  cbn [orb].
+  destruct (parse_u64 (utrim s)) as [u|] eqn:Eu; cbn [is_some orb].
+  - split; [discriminate|]. intros _. unfold u64_scalar. destruct (Z.leb_spec u i64_max).
+    + left. discriminate.
+    + destruct (bytes_eqb (dec_of_Z u) s) eqn:E.
+      * right. exists u. apply bytes_eqb_eq in E. auto.
+      * left. intros Hq. inversion Hq as [H1]. rewrite H1, bytes_eqb_refl in E. discriminate.
+  - destruct (parse_i64 (utrim s)) as [i|]; cbn [is_some orb]; [split; [discriminate|left; discriminate]|].
+    destruct (parse_f64 (utrim s)) as [b|]; [destruct (f64_is_finite b)|];
+      split; intros Hq; try discriminate; try reflexivity; left; discriminate.
+Qed.
+
+(** a cell outside the candidate class keeps its text in every segment layout *)
+Corollary not_candidate_not_retyped : forall s, retype_candidate s = false -> string_retyped s = false.
+Proof.
+  intros s H. unfold string_retyped. rewrite (proj1 (string_retyped_characterised s) H), scalar_eqb_refl. reflexivity.
+Qed.
